@@ -229,7 +229,7 @@ def run_structural(ch, tier, res, tmpdir):
     sc, used = build_hostile(st)
     eq_ok = all(s == s.strip() for s in used)
     for route in ('text', 'file'):
-        ctx = dict(route=route, strings=[repr(s) for s in used][:30], yaml=export_to_yaml(sc)[:1500])
+        ctx = dict(route=route, strings=[repr(s) for s in used], yaml=export_to_yaml(sc)[:1500])
         try:
             sc2, extra = roundtrip(sc, route, tmpdir)
         except StatechartError as e:
@@ -288,9 +288,10 @@ def classify(res, record, tier):
     character in the very same chart."""
     global NEL_SUBSTITUTE
     from sim.engine import Choices
-    if res.violation['cls'] in ('reimport-failed', 'reimport-rejected', 'not-equal', 'behaviour-differs', 'file-differs'):
+    if res.violation['cls'] in ('not-equal', 'behaviour-differs', 'file-differs'):
         return None
-    if '\\x85' not in repr(res.violation['msg']):
+    strings = (res.violation.get('explained') or {}).get('strings') or []
+    if '\\x85' not in repr(res.violation['msg']) and not any('\\x85' in s for s in strings):
         return None
     NEL_SUBSTITUTE = '\u00e9'
     try:
